@@ -4,8 +4,8 @@ EXTENDS MultiSnap
 
 Two   == {"some-snap", "some-other-snap"}
 Order2 == <<"some-snap", "some-other-snap">>
-Three == {"some-snap", "some-other-snap", "third-snap"}
-Order3 == <<"some-snap", "some-other-snap", "third-snap">>
+Three == {"some-snap", "some-other-snap", "snap-c"}
+Order3 == <<"some-snap", "some-other-snap", "snap-c">>
 
 KAll == {"install-many", "update-many", "remove-many"}
 KInstUpd == {"install-many", "update-many"}
@@ -21,6 +21,17 @@ Rev1 == {1}
 Rev12 == {1, 2}
 Rev23 == {2, 3}
 Rev123 == {1, 2, 3}
+Rev3 == {3}
+Rev2 == {2}
+\* initial contexts
+S0 == <<>>
+S1 == <<1>>
+S12 == <<1, 2>>
+CtxEmpty2 == {[s \in Two |-> S0]}
+CtxEmpty3 == {[s \in Three |-> S0]}
+CtxQuick2 == {[s \in Two |-> S0], ("some-snap" :> S1) @@ ("some-other-snap" :> S12)}
+CtxMore2 == {[s \in Two |-> S0], ("some-snap" :> S1) @@ ("some-other-snap" :> S12), [s \in Two |-> S12], [s \in Two |-> S1]}
+CtxQuick3 == {[s \in Three |-> S0], ("some-snap" :> S1) @@ ("some-other-snap" :> S12) @@ ("snap-c" :> S1)}
 RetNone == [t |-> "none", v |-> 0]
 Ret2 == [t |-> "num", v |-> 2]
 ==============================================================================
